@@ -2,8 +2,8 @@
    regenerated template) against what the real moq produced on the same input. *)
 From Moq Require Import Strs GoTypes VarName Registry Scope Gen TmplAst TmplExec WellScoped.
 
-(* the template prints type-parameter names through Exported in the declaration *)
-Definition exported_tp (s : string) : string := exported s.
+(* type-parameter names are printed verbatim (since the fix of D1) *)
+Definition exported_tp (s : string) : string := s.
 From Moq.gen Require Import TemplateSrc.
 
 Inductive observed :=
